@@ -27,6 +27,15 @@ func main() {
 		fmt.Fprintln(os.Stderr, "usage: harness replay|record|optable ...")
 		os.Exit(2)
 	}
+	if os.Getenv("VERIF_GC_PRESSURE") != "" {
+		// development aid: the collector runs back to back, so that memory reached only through an address (the tensor library
+		// builds slices from uintptr values) is reclaimed while it is still read - see DESIGN 14.4 (ConstantOfShape, PRelu)
+		go func() {
+			for {
+				runtime.GC()
+			}
+		}()
+	}
 	switch os.Args[1] {
 	case "replay":
 		os.Exit(cmdReplay(os.Args[2:]))
